@@ -555,7 +555,7 @@ def _encv(v):
             return {"$tu": [_encv(x) for x in v["$tu"]]}
         if "$d" in v:
             return {"$d": [[_encv(k), _encv(x)] for k, x in v["$d"]]}
-        if "$en" in v:
+        if "$en" in v or "$exc" in v:
             return v
         return {"$d": [[k, _encv(x)] for k, x in v.items()]}
     if isinstance(v, list):
